@@ -2,7 +2,7 @@
    `run true` is the access order of the code after the fix: commits (tied to the code by the
    controlled-scheduler correspondence check); `run false` is the order of the pinned tree. *)
 From ZV.Common Require Import Base.
-From ZV.C16 Require Import Model ModelSeq ModelLazy ProofsBase ProofsInv ProofsStep ProofsMain ProofsRefute ProofsSeq ProofsSolo ProofsLazy.
+From ZV.C16 Require Import Model ModelSeq ModelLazy ModelSpec ProofsBase ProofsInv ProofsStep ProofsMain ProofsRefute ProofsSeq ProofsSolo ProofsLazy ProofsSpec ProofsRefine.
 Open Scope N_scope.
 
 (* (i) one-writer-many-readers: for any number of threads, any programs, any schedule, at most one
@@ -328,4 +328,61 @@ Check handed_back_safe_after :
     In a (handed_back (sh st) (sh st')) ->
     In t (live st') -> tracked t -> a < tv t.
 Print Assumptions handed_back_safe_after.
+
+(* ---- refinement to the abstract specification (ModelSpec.v, ProofsSpec.v, ProofsRefine.v) ---- *)
+(* the abstract specification (ModelSpec.v: multiset of live reader versions, multiset of live writer versions, threshold;
+   steps acquire / release / advance) keeps: at most one writer in OneWriteMultiRead, threshold <= every live version *)
+Theorem spec_invariants :
+  forall level a, areach level a -> ainv level a.
+Proof. exact areach_ainv. Qed.
+Check spec_invariants :
+  forall level a, areach level a -> ainv level a.
+Print Assumptions spec_invariants.
+
+(* REFINEMENT: in every reachable state of the interleaving semantics (fixed access order, any programs over the extended
+   alphabet, any threshold, any schedule) every step of every thread is the step of the specification named by `label_of`:
+   a token comes into existence at the fetch_add of current_version (or as the (1,1) token of a single-threaded level) and
+   ceases to exist at the decrement of its counter; the store in try_advance_min_version is an `advance`; everything else
+   - cache traffic, with_*_token, hand-over between threads, retire / reclaim - is invisible *)
+Theorem step_refines :
+  forall level b progs sched tid,
+    let st := run true sched (initb level b progs) in
+    astep level (abs st) (label_of st tid) (abs (step true st tid)).
+Proof. exact step_refines_run_proof. Qed.
+Check step_refines :
+  forall level b progs sched tid,
+    let st := run true sched (initb level b progs) in
+    astep level (abs st) (label_of st tid) (abs (step true st tid)).
+Print Assumptions step_refines.
+
+(* ... hence the abstraction of every reachable state is a reachable state of the specification *)
+Theorem run_refines :
+  forall level b progs sched, areach level (abs (run true sched (initb level b progs))).
+Proof. exact run_refines_proof. Qed.
+Check run_refines :
+  forall level b progs sched, areach level (abs (run true sched (initb level b progs))).
+Print Assumptions run_refines.
+
+(* the clauses of the property as corollaries of the specification's invariants: (i) the live writer tokens are among the
+   specification's writers, at most one at level 3; (ii) every live token's version is in the specification's multisets, all
+   of which are >= the threshold = min_version; (iii) when no operation is in flight the counters are the sizes of the
+   specification's multisets *)
+Theorem property_from_spec :
+  forall level b progs sched,
+    let st := run true sched (initb level b progs) in
+    ainv level (abs st) /\
+    (level = 3 -> count_kind KW (live st) <= nlen (a_wr (abs st)) <= 1) /\
+    (forall t, In t (live st) -> tracked t ->
+       In (tv t) (a_rd (abs st) ++ a_wr (abs st)) /\ a_lo (abs st) = minv (sh st) /\ minv (sh st) <= tv t) /\
+    (quiescent st -> ar (sh st) = nlen (a_rd (abs st)) /\ aw (sh st) = nlen (a_wr (abs st))).
+Proof. exact property_from_spec_proof. Qed.
+Check property_from_spec :
+  forall level b progs sched,
+    let st := run true sched (initb level b progs) in
+    ainv level (abs st) /\
+    (level = 3 -> count_kind KW (live st) <= nlen (a_wr (abs st)) <= 1) /\
+    (forall t, In t (live st) -> tracked t ->
+       In (tv t) (a_rd (abs st) ++ a_wr (abs st)) /\ a_lo (abs st) = minv (sh st) /\ minv (sh st) <= tv t) /\
+    (quiescent st -> ar (sh st) = nlen (a_rd (abs st)) /\ aw (sh st) = nlen (a_wr (abs st))).
+Print Assumptions property_from_spec.
 
